@@ -222,8 +222,11 @@ def task_noroots(t):
     case = dict(task=t)
     try:
         m, refs, ext, b = sweep.make_context(ctx, order, U)
+        base_m, base_ext = S.clone(m), dict(ext)
         # leave garbage: release a quarter
-        for f in sorted(refs)[::4]:
+        # (a function and its complement share a node: release both)
+        released = sorted({g for f in sorted(refs)[::4] for g in (f, U.full ^ f)})
+        for f in released:
             m.decref(refs[f])
             ext[abs(refs[f])] -= 1
         fname = 'c12n-%d.p' % pid
@@ -267,6 +270,53 @@ def task_noroots(t):
             if d2(r) != f:
                 rec('manager-pickle-den', 'whole-manager pickle changed a function', case)
                 break
+        # the same after collections: the node numbering now has HOLES; the loaded manager
+        # must go on working like the original.  Several release patterns (which numbers are
+        # free decides where the next node goes)
+        fs_all = sorted(refs)
+        for stride, off in ((4, 0), (4, 1), (3, 0), (3, 2), (5, 2), (2, 1), (7, 3), (16, 5)):
+            mm = S.clone(base_m)
+            ext_ = dict(base_ext)
+            released = sorted({g for f in fs_all[off::stride] for g in (f, U.full ^ f)})
+            for f in released:
+                mm.decref(refs[f])
+                ext_[abs(refs[f])] -= 1
+            ext_ = {u_: c for u_, c in ext_.items() if c}
+            n_before = len(mm)
+            mm.collect_garbage()
+            if len(mm) >= n_before:
+                raise Violation('harness: the collection freed nothing')
+            mm._dump_manager(fname2)
+            m3 = type(mm)._load_manager(fname2)
+            rep.add('evaluations')
+            rep.add('nontrivial')
+            hcase = dict(case, released_every=stride, offset=off)
+            for attr in ('vars', '_succ', '_ref', 'roots', 'max_nodes'):
+                if getattr(mm, attr) != getattr(m3, attr):
+                    rec('manager-pickle-holes', 'whole-manager pickle of a manager with freed '
+                        'node numbers does not reproduce ' + attr, hcase)
+            try:
+                O.check(m3, ext_, U)
+                b3 = sweep.Builder(m3, U)
+                d3 = O.Den(m3, U)
+                for f in released:
+                    # rebuild the released functions in the loaded manager (new nodes needed)
+                    r = b3.verified(f)
+                    x = names[f % len(names)]
+                    r2 = m3.apply('xor', r, m3.var(x))
+                    if d3(r2) != f ^ U.var(x):
+                        raise Violation('an operation in the loaded manager gives the wrong '
+                                        'function')
+                O.check(m3, ext_, U)
+                for f, r in refs.items():
+                    if f not in released and d3(r) != f:
+                        raise Violation('whole-manager pickle changed a function')
+            except Violation as e:
+                rec('manager-pickle-holes:' + e.what, e.what, hcase, **e.detail)
+            except Exception as e:  # noqa
+                rec('manager-pickle-holes-exception:' + type(e).__name__,
+                    'the manager loaded from a whole-manager pickle (made after a collection) '
+                    'fails: %r' % (e,), hcase)
         for fn_ in (fname, fname2):
             os.remove(fn_)
     except Violation as e:
@@ -278,7 +328,130 @@ def task_noroots(t):
     return rep
 
 
-TASKS = dict(p=task_pairs, n=task_noroots)
+ROUTES = ('raw-pickle', 'raw-pickle-protocol', 'upper-p', 'upper-json', 'filetype-pickle',
+          'filetype-json', 'module-json', 'module-json-order')
+
+
+def task_routes(t):
+    """The less-travelled ways of writing and reading the same files: raw dd.bdd managers with
+    integer roots, extra pickle keywords, upper-case extensions, explicit `filetype` with a
+    neutral file name, the module-level JSON functions; every function of n variables."""
+    _, n, soi, toi, focus = t
+    rep = run.Report()
+    rec = sweep.Rec(rep)
+    env.scratch_dir()
+    names = names_for(n, env.SEED)
+    U = Universe(names)
+    ords = sweep.orders(names)
+    sorder, torder = ords[soi], ords[toi]
+    src = S.new_autoref(sorder)
+    refs, b = sweep.build_all(src, U, hold=False)
+    fn = {f: src._add_int(r) for f, r in refs.items()}
+    raw = src._bdd
+    pid = os.getpid()
+    fs = sorted(refs)
+    made = set()
+    for k, f in enumerate(fs):
+        g = fs[(k * 7 + 3) % len(fs)]
+        for route in ROUTES:
+            if focus is not None and sweep.norm([f, route]) != sweep.norm(focus):
+                continue
+            as_dict = bool((k + len(route)) % 2)
+            case = dict(task=t[:-1] + ([f, route],), roots=[U.fmt(f), U.fmt(g)], route=route,
+                        as_dict=as_dict, src=sweep.order_str(sorder), tgt=sweep.order_str(torder))
+            try:
+                hs = [fn[f], fn[g]]
+                if route.startswith('raw'):
+                    items = [h.node for h in hs]
+                else:
+                    items = hs
+                roots = {'first': items[0], 'second': items[1]} if as_dict else list(items)
+                live = []
+                if route == 'raw-pickle':
+                    fname = 'c12r-%d.p' % pid
+                    raw.dump(fname, roots=roots)
+                    tgt = S.new_bdd(sorder)
+                    back = tgt.load(fname)
+                elif route == 'raw-pickle-protocol':
+                    fname = 'c12r-%d.p' % pid
+                    raw.dump(fname, roots, 'pickle', protocol=4)
+                    tgt = S.new_bdd(torder)
+                    back = tgt.load(fname, levels=False)
+                elif route == 'upper-p':
+                    fname = 'C12R-%d.P' % pid
+                    src.dump(fname, roots)
+                    tgt = S.new_autoref()
+                    back = tgt.load(fname)
+                elif route == 'upper-json':
+                    fname = 'C12R-%d.JSON' % pid
+                    src.dump(fname, roots)
+                    tgt = S.new_autoref(torder)
+                    back = tgt.load(fname)
+                elif route == 'filetype-pickle':
+                    tmp, fname = 'c12r-%d.dat' % pid, 'c12r-%d.p' % pid
+                    src.dump(tmp, roots=roots, filetype='pickle')
+                    os.replace(tmp, fname)
+                    tgt = S.new_autoref(torder)
+                    back = tgt.load(fname, False)
+                elif route == 'filetype-json':
+                    tmp, fname = 'c12r-%d.dat' % pid, 'c12r-%d.json' % pid
+                    src.dump(tmp, roots=roots, filetype='json')
+                    os.replace(tmp, fname)
+                    tgt = S.new_autoref()
+                    back = tgt.load(fname)
+                elif route == 'module-json':
+                    fname = 'c12r-%d.json' % pid
+                    _copy.dump_json(roots, fname)
+                    tgt = S.new_autoref(torder)
+                    back = _copy.load_json(fname, tgt)
+                else:
+                    fname = 'c12r-%d.json' % pid
+                    _copy.dump_json(roots, fname)
+                    tgt = S.new_autoref()
+                    back = _copy.load_json(fname, tgt, load_order=True)
+                    if sweep.order_str(dict(tgt.vars)) != sweep.order_str(sorder):
+                        rec('routes-order', 'load_order=True into an empty manager did not '
+                            'reproduce the order of the file', case)
+                made.add(fname)
+                rep.add('evaluations')
+                if f not in (0, U.full) or g not in (0, U.full):
+                    rep.add('nontrivial')
+                if as_dict:
+                    ok = isinstance(back, dict) and set(back) == {'first', 'second'}
+                    vals = [back['first'], back['second']] if ok else []
+                else:
+                    ok = isinstance(back, list) and len(back) == 2
+                    vals = list(back) if ok else []
+                if not ok:
+                    rec('routes-shape:' + route, 'loaded roots do not have the dumped '
+                        'names/positions', case)
+                    continue
+                den = O.Den(tgt, U)
+                for r, want in zip(vals, (f, g)):
+                    if den(r) != want:
+                        rec('routes-wrong:' + route, 'a loaded root denotes another function '
+                            '(%s)' % route, case)
+                if not route.startswith('raw'):
+                    live = vals
+                env.settle()
+                O.check(tgt, _ledger(live), U, O.Den(tgt, U))
+                del vals, back, live
+            except Violation as e:
+                rec('routes-broken:' + e.what, e.what, case, **e.detail)
+            except Exception as e:  # noqa
+                rec('routes-exception:%s:%s' % (route, type(e).__name__), 'raised %r' % (e,), case)
+    for fname in made:
+        try:
+            os.remove(fname)
+        except OSError:
+            pass
+    if focus is None:
+        rep.sample(dict(kind='routes', routes=list(ROUTES), src=sweep.order_str(sorder),
+                        tgt=sweep.order_str(torder)))
+    return rep
+
+
+TASKS = dict(p=task_pairs, n=task_noroots, r=task_routes)
 
 
 def dispatch(t):
@@ -297,7 +470,12 @@ def plan(tier):
                 ts.append(('p', 3, soi, toi, 7, 0, sctx, None))
         for oi in range(6):
             ts.append(('n', 3, oi, ('K0', 'K1', 'K2')[oi % 3], None))
+        for soi in range(6):
+            ts.append(('r', 3, soi, (soi + 3) % 6, None))
     else:
+        for soi in range(6):
+            for toi in range(6):
+                ts.append(('r', 3, soi, toi, None))
         for soi in range(6):
             for toi in range(6):
                 ts.append(('p', 3, soi, toi, 1, 0, 'plain', None))
@@ -324,7 +502,10 @@ def main(tier, t0):
               'listed order pairs) x roots as list/dict x {pickle, JSON} x {levels | load_order} '
               'true/false x target in {fresh, same manager, pre-declared, pre-populated, extra '
               'variable}; pickle dumps without roots after histories K0-K2 with garbage; whole-'
-              'manager pickles; non-trivial = a non-constant root; distinct by construction. '
+              'manager pickles; the same files written and read through the other documented '
+              'routes (raw managers with integer roots, pickle keywords, upper-case extensions, '
+              'explicit filetype, module-level JSON functions) for every function; '
+              'non-trivial = a non-constant root; distinct by construction. '
               'A refusal (exception) is accepted only where the file order conflicts with the '
               'target and the flag asks to keep it.'),
         assumptions=['truth-table model; independent oracle on the receiving manager with the '
